@@ -372,7 +372,9 @@ func c17ClientDescribe0(fi os.FileInfo) string {
 func c17LongNames(r *vfRun, root string, kinds []string) bool {
 	sim := r.sim
 	srv := vfStartServer(sim, 0, r.sc.cfg("alloc", 0) != 0, nil, 0, root, false, "", 0)
+	sim.mu.Lock() // (the server's reader, already running, looks at the name under this lock)
 	srv.c2s.name, srv.s2c.name = fmt.Sprintf("c2s-%d", len(sim.pipes)), fmt.Sprintf("s2c-%d", len(sim.pipes))
+	sim.mu.Unlock()
 	ops := []vfOp{{K: "init", A: 3}, {K: "opendir", P: ".", H: 0}, {K: "readdir", H: 0}, {K: "readdir", H: 0}, {K: "close", H: 0}}
 	wc := vfNewWireClient(sim, srv.c2s, srv.s2c, ops)
 	wc.window = 1
